@@ -331,6 +331,11 @@ def run(res, tier, seed, search):
                 % (maxdim, sorted(set(STYLES)), DIMS_LARGE))
     rep = Reporter(res)
     helper_checks(rep, np.random.default_rng([seed, 8]), 1500 if quick else 30000)
+    # kernel-level correspondence with the Lean model (Model/Sparse.lean through the driver): merge kernels exact,
+    # metric pre-images within 1e-5, on all support patterns for dim <= 5 + random pairs
+    from harness import c08_kernels
+    import random as _random
+    c08_kernels.run_kernels(res, _random.Random(seed * 7919 + 88), 300 if quick else 3000)
     corpus = os.path.join(VERIF, "corpus", "C08.jsonl")
     if os.path.exists(corpus):
         for l in open(corpus):
